@@ -263,5 +263,48 @@ __CPROVER_ensures(xv_errno == __CPROVER_old(xv_errno))
 __CPROVER_ensures(CTL_FOREIGN(ctl))
 ;
 
+/* ------------------------------------------------------------------ ctl_create (public; create_ux is inlined: stat, socket, bind, listen, unlink are stubs)
+ * NULL (no registration made, every descriptor it opened closed again) or a new struct ctl: empty session table, listening
+ * descriptor registered for EPOLLIN with the socket's xpoll.  The socket itself is not written (frame).  errno: any. */
+#define CTL_FOREIGN0 (xv_ctl_g_foreign ==> (xv_ctl_reg >= 0 && xv_ctl_reg < XV_CTL_REGS && xv_ctl_live[xv_ctl_reg] && xv_ctl_ev[xv_ctl_reg] == xv_ctl_g_fev))
+struct ctl *ctl_create(struct xcm_socket *socket)
+__CPROVER_requires(XV_CTL_Z_LO)
+__CPROVER_requires(XV_CTL_Z_HI)
+__CPROVER_requires(__CPROVER_is_fresh(socket, sizeof(*socket)) && socket->xpoll == xv_ctl_xpoll && CTL_FOREIGN0)
+__CPROVER_assigns(CTL_EP_GHOSTS, xv_ctl_acc, xv_ctl_cls, xv_ctl_unl)
+__CPROVER_ensures(__CPROVER_return_value == NULL || __CPROVER_is_fresh(__CPROVER_return_value, XV_CTL_SIZEOF(struct ctl)))
+/* PO[C14] ctl_create.empty_table_registered */
+__CPROVER_ensures(__CPROVER_return_value != NULL ==> (__CPROVER_return_value->socket == socket && __CPROVER_return_value->num_clients == 0 && \
+        CTL_INV(__CPROVER_return_value) && CTL_INC(xv_ctl_ep_ops) && xv_ctl_ev[__CPROVER_return_value->server_fd_reg_id] == EPOLLIN && \
+        CTL_INC(xv_ctl_fds_made) && CTL_SAME(xv_ctl_close_calls) && CTL_FOREIGN(__CPROVER_return_value)))
+/* failure: nothing registered, and as many descriptors closed as opened */
+__CPROVER_ensures(__CPROVER_return_value == NULL ==> (CTL_SAME(xv_ctl_ep_ops) && CTL_FOREIGN0 && \
+        xv_ctl_fds_made - __CPROVER_old(xv_ctl_fds_made) == xv_ctl_close_calls - __CPROVER_old(xv_ctl_close_calls)))
+;
+
+/* ------------------------------------------------------------------ ctl_destroy (public)
+ * owner == true : xcm_close -- sessions and listening descriptor closed and deregistered, the bound path unlinked.
+ * owner == false: xcm_cleanup in a forked child -- descriptors closed, but the epoll instance is SHARED with the parent
+ *                 process and the file belongs to it: no epoll operation, no unlink. */
+void ctl_destroy(struct ctl *ctl, bool owner)
+__CPROVER_requires(XV_CTL_Z_LO)
+__CPROVER_requires(XV_CTL_Z_HI)
+__CPROVER_requires(ctl == NULL || (CTL_MEM(ctl) && CTL_INV(ctl) && CTL_FOREIGN(ctl)))
+__CPROVER_assigns(ctl != NULL: CTL_EP_GHOSTS, RC_GHOSTS, xv_ctl_unl, ctl->num_clients, __CPROVER_object_upto(&CTL_C(ctl, 0), XV_CTL_SIZEOF(struct client)))
+__CPROVER_frees(ctl)
+/* PO[C14] ctl_destroy.errno_restored */
+__CPROVER_ensures(xv_errno == __CPROVER_old(xv_errno))
+__CPROVER_ensures(ctl != NULL ==> __CPROVER_was_freed(ctl))
+/* every descriptor of the control interface is closed: one per session and the listening one */
+/* PO[C14] ctl_destroy.descriptors_closed */
+__CPROVER_ensures(ctl != NULL ==> (xv_ctl_close_calls == __CPROVER_old(xv_ctl_close_calls) + (unsigned long)__CPROVER_old(ctl->num_clients) + 1 && CTL_FOREIGN0))
+/* PO[C14] ctl_destroy.control_file_removed_by_owner_only */
+__CPROVER_ensures((ctl != NULL && owner && xv_ctl_gsn_ok) ? (CTL_INC(xv_ctl_unlink_calls) && xv_ctl_unlink_p == xv_ctl_bound_p) : CTL_SAME(xv_ctl_unlink_calls))
+/* PO[C14] ctl_destroy.owner_deregisters */
+__CPROVER_ensures((ctl != NULL && owner) ==> !xv_ctl_live[__CPROVER_old(ctl->server_fd_reg_id)])
+/* PO[C14,C08] ctl_destroy.not_owner_leaves_epoll_alone */
+__CPROVER_ensures((ctl == NULL || !owner) ==> CTL_SAME(xv_ctl_ep_ops))
+;
+
 #include "contracts/end.h"
 #endif
